@@ -169,9 +169,26 @@ SysEq(x, y) == x.rx = y.rx /\ x.ss = y.ss
 (* first go to the "duplicates" system, the others are appended                                *)
 ConcatNew(x, y) == { j \in RIdx(y) : \A i \in RIdx(x) : ~SameRx(x.rx[i], y.rx[j]) }
 
+(* concatenation of several systems: a reaction of a later system is new iff no reaction of an *)
+(* EARLIER system of the list (first or not) is the same reaction; new ones join the sum, the  *)
+(* others the duplicates; tags <<position in the list, index>>                                 *)
+ConcatTags(S) == { t \in (1..Len(S)) \X (1..20) : t[2] \in RIdx(S[t[1]]) }
+ConcatIsNew(S, t) == \A k \in 1..(t[1] - 1) : \A m \in RIdx(S[k]) : ~SameRx(S[k].rx[m], S[t[1]].rx[t[2]])
+ConcatNExp(S) == [sum |-> SortPairs({ t \in ConcatTags(S) : ConcatIsNew(S, t) }),
+                  dup |-> SortPairs({ t \in ConcatTags(S) : ~ConcatIsNew(S, t) })]
+
 (* per-substance conversions, in substance order *)
 AsArray(sys, d) == [i \in 1..Len(sys.ss) |-> d[sys.ss[i]]]
 AsDict(sys, a) == [s \in Subst(sys) |-> a[Pos(sys.ss, s)]]
+(* all combinations of varied levels: V maps some substances to their sequences of levels; the  *)
+(* result has one axis per varied substance, IN SUBSTANCE ORDER (whatever order the caller      *)
+(* listed them in), then the substance axis; entry [v1]..[vn] is the array for d with the       *)
+(* varied substances set to their v-th levels                                                    *)
+VariedKeys(sys, V) == SelectSeq(sys.ss, LAMBDA s : s \in DOMAIN V)
+RECURSIVE VariedArr(_, _, _, _)
+VariedArr(sys, d, V, keys) ==
+    IF keys = <<>> THEN AsArray(sys, d)
+    ELSE [v \in 1..Len(V[Head(keys)]) |-> VariedArr(sys, [d EXCEPT ![Head(keys)] = V[Head(keys)][v]], V, Tail(keys))]
 
 (* elemental upper bounds: least of (element total)/(atoms per molecule); <<1, 0>> = unbounded *)
 Elems(sys, s) == DOMAIN sys.comp[s] \ {"0"}
@@ -226,8 +243,8 @@ QueryExp(sys, kind, arg) ==
       [] kind = "conv" ->
            [arr |-> AsArray(sys, arg.d), dict |-> AsDict(sys, arg.a),
             idx |-> [s \in Subst(sys) |-> Pos(sys.ss, s) - 1],
-            varied |-> [v \in 1..Len(arg.vals) |-> [i \in 1..Len(sys.ss) |->
-                            IF sys.ss[i] = arg.vs THEN arg.vals[v] ELSE arg.d[sys.ss[i]]]]]
+            vkeys |-> VariedKeys(sys, arg.vals),
+            varied |-> VariedArr(sys, arg.d, arg.vals, VariedKeys(sys, arg.vals))]
       [] kind = "bounds" ->
            [ub |-> [i \in 1..Len(sys.ss) |-> UpperBound(sys, arg, sys.ss[i])]]
       [] kind = "dot" -> Graph(sys, arg.inact, arg.rref0)
@@ -334,7 +351,9 @@ QueryDefined(sys, kind, arg) ==
     CASE kind = "bounds" -> sys.comp # <<>> /\ DOMAIN arg = Subst(sys)
       [] kind = "yields" -> /\ FullRank(sys) /\ DOMAIN arg.k = RIdx(sys) /\ DOMAIN arg.y = SysKeys(sys)
                             /\ \A s \in SysKeys(sys) : arg.y[s] = YieldsOf(sys, arg.k, s)
-      [] kind = "conv"   -> Len(sys.ss) > 0 /\ DOMAIN arg.d = Subst(sys) /\ Len(arg.a) = Len(sys.ss) /\ arg.vs \in Subst(sys)
+      [] kind = "conv"   -> Len(sys.ss) > 0 /\ DOMAIN arg.d = Subst(sys) /\ Len(arg.a) = Len(sys.ss)
+                            /\ IsInj(arg.vorder) /\ ToSet(arg.vorder) = DOMAIN arg.vals /\ DOMAIN arg.vals \subseteq Subst(sys)
+                            /\ arg.vorder # <<>> /\ \A s \in DOMAIN arg.vals : Len(arg.vals[s]) > 0
       [] kind = "subset" -> TRUE
       [] kind \in {"shape", "graph"} -> TRUE
       [] kind = "dot" -> arg.inact \in BOOLEAN /\ arg.rref0 \in Nat
@@ -349,6 +368,14 @@ Query2(i, j, kind) ==
     /\ phase = "run" /\ IsSys(i) /\ IsSys(j) /\ kind \in {"add", "eq", "concat"}
     /\ out' = [op |-> "query", kind |-> kind, exp |-> Query2Exp(ws[i], ws[j], kind), fresh |-> {}]
     /\ hist' = Append(hist, [op |-> "Query2", i |-> i, j |-> j, kind |-> kind])
+    /\ phase' = IF TerminalQueries THEN "done" ELSE "run"
+    /\ UNCHANGED <<ws, pend>>
+
+(* concatenate over a list of distinct systems *)
+QueryCat(js) ==
+    /\ phase = "run" /\ Len(js) >= 2 /\ IsInj(js) /\ \A k \in DOMAIN js : IsSys(js[k]) /\ NR(ws[js[k]]) <= 20
+    /\ out' = [op |-> "query", kind |-> "concatn", exp |-> ConcatNExp([k \in DOMAIN js |-> ws[js[k]]]), fresh |-> {}]
+    /\ hist' = Append(hist, [op |-> "QueryCat", js |-> js, kind |-> "concatn"])
     /\ phase' = IF TerminalQueries THEN "done" ELSE "run"
     /\ UNCHANGED <<ws, pend>>
 
@@ -402,7 +429,11 @@ GenAdd == \E i \in 1..Len(ws), j \in 1..Len(ws), how \in {"add", "iadd"} :
 LastSys == Len(ws)
 ConvArgs(sys) ==
     LET n == Len(sys.ss) IN
-    { [d |-> [s \in Subst(sys) |-> 10 + Idx(s)], a |-> [i \in 1..n |-> 20 + i], vs |-> v, vals |-> <<7, 9>>] : v \in Subst(sys) }
+    \* vorder = the order in which the caller lists the varied substances: every injective sequence of
+    \* 1..MaxVaried substances; unequal numbers of levels (1 + Idx mod 3)
+    { [d |-> [s \in Subst(sys) |-> 10 + Idx(s)], a |-> [i \in 1..n |-> 20 + i], vorder |-> vo,
+       vals |-> [s \in ToSet(vo) |-> [v \in 1..(1 + (Idx(s) % 3)) |-> 100 * Idx(s) + v]]] :
+      vo \in { q \in UNION { [1..m -> Subst(sys)] : m \in 1..3 } : IsInj(q) } }
 GenQuery ==
     /\ Ready
     /\ \/ \E kind \in QueryKinds \cap {"shape", "graph"} : Query(LastSys, kind, <<>>)
@@ -416,7 +447,13 @@ GenQuery ==
 GenQuery2 == \E i \in 1..Len(ws), j \in 1..Len(ws), kind \in QueryKinds \cap {"add", "eq", "concat"} :
     Ready /\ Query2(i, j, kind)
 
-Next == PickRx \/ GenMake \/ GenSplit \/ GenSubset \/ GenAdd \/ GenQuery \/ GenQuery2
+(* "concatn": every ordering of three systems; "concatn-last": the last three systems, both ways *)
+GenQueryCat ==
+    /\ Ready /\ Len(ws) >= 3
+    /\ \/ "concatn" \in QueryKinds /\ \E js \in { q \in [1..3 -> 1..Len(ws)] : IsInj(q) } : QueryCat(js)
+       \/ "concatn-last" \in QueryKinds /\ LET n == Len(ws) IN \E js \in {<<n - 2, n - 1, n>>, <<n, n - 1, n - 2>>} : QueryCat(js)
+
+Next == PickRx \/ GenMake \/ GenSplit \/ GenSubset \/ GenAdd \/ GenQuery \/ GenQuery2 \/ GenQueryCat
 
 ------------------------------------------------------------------------------
 (* invariants; each is checked on the systems created or changed by the last step (`fresh`):  *)
@@ -486,6 +523,7 @@ LastEv == hist[Len(hist)]
 Cls == IF LastEv.op = "Make" THEN (IF out.raised THEN "make-refused" ELSE "make-" \o LastEv.mode)
        ELSE IF LastEv.op = "Query" /\ LastEv.kind = "graph"
             THEN "graph-" \o ToString(Cardinality(Split(ws[LastEv.i]))) \o "-" \o ToString(NR(ws[LastEv.i]))
+       ELSE IF LastEv.op = "Query" /\ LastEv.kind = "conv" THEN "conv-" \o ToString(Len(LastEv.arg.vorder))
        ELSE LastEv.kind
 CaseRec == [in |-> [hist |-> hist], exp |-> out, cls |-> Cls]
 (* a case is a finished history, or a system just made (its constructor outcome) *)
